@@ -7,6 +7,8 @@ dictionary that is handed to `json.dumps` and received from `json.loads`, and of
 -/
 import TddaVerif.Model.TddaFile
 import TddaVerif.Lemmas.TddaFile
+import TddaVerif.Lemmas.TddaMeta
+import TddaVerif.Generated.Meta
 
 namespace TddaVerif.Props.C09
 open TddaVerif.Py TddaVerif.TddaFile
@@ -73,5 +75,39 @@ example : getDate "2020-01-02 03:04:05+25:00".toList = .invalid := by decide
 example : getDate "2020-01-02+01:00".toList = .notDate := by decide
 example : (⟨⟨2020, 1, 2, 3, 4, 5, 0⟩, some (-210)⟩ : Civil).valid = true := by decide
 example : stripLines "a  \nb\t\n".toList = "a\nb\n".toList := by decide
+
+/-! ### creation metadata (Model/TddaMeta.lean; the keys and the two guards are regenerated from base.py) -/
+open TddaVerif.TddaMeta in
+/-- the keys of the source are pairwise different (the round trip below needs it) -/
+theorem metadata_keys_nodup : TddaVerif.Generated.Meta.metadataKeys.Nodup := by decide
+
+open TddaVerif.TddaMeta in
+/-- **metadata round trip.** With the keys of the source: what is written after loading what was written is what was
+    written - n_records 0, an empty dataset name and every other value that is not null included -/
+theorem meta_roundtrip (obj : Key → MV) :
+    getMeta TddaVerif.Generated.Meta.metadataKeys
+        (loadMeta TddaVerif.Generated.Meta.metadataKeys (getMeta TddaVerif.Generated.Meta.metadataKeys obj))
+      = getMeta TddaVerif.Generated.Meta.metadataKeys obj :=
+  TddaMeta.Lemmas.meta_roundtrip _ metadata_keys_nodup obj
+
+open TddaVerif.TddaMeta in
+/-- a value that is not null is kept whatever it is -/
+theorem falsy_value_kept (k : Key) (hk : k ∈ TddaVerif.Generated.Meta.metadataKeys) (t : List Char) :
+    loadMeta TddaVerif.Generated.Meta.metadataKeys [(k, .val t)] k = .val t :=
+  TddaMeta.Lemmas.falsy_value_kept _ k hk t
+
+open TddaVerif.TddaMeta in
+/-- unknown keys and null values load nothing -/
+theorem meta_unknown_or_null_ignored (k k' : Key) (v : MV) (h : k' ∉ TddaVerif.Generated.Meta.metadataKeys ∨ v = .null) :
+    loadMeta TddaVerif.Generated.Meta.metadataKeys [(k', v)] k = .null :=
+  TddaMeta.Lemmas.unknown_or_null_ignored _ k k' v h
+
+/-- **tie.** The guards of the two loops in base.py are the ones the model translates -/
+theorem tie_meta_guards :
+    TddaVerif.Generated.Meta.loadGuard = "k in METADATA_KEYS and v is not None".toList ∧
+    TddaVerif.Generated.Meta.loadAction = "self.__dict__[k] = v".toList ∧
+    TddaVerif.Generated.Meta.getGuard = "getattr(self, k, None) is not None".toList := by decide
+
+example : "n_records".toList ∈ TddaVerif.Generated.Meta.metadataKeys := by decide
 
 end TddaVerif.Props.C09
